@@ -911,6 +911,49 @@ def eve_large_k_checks():
     return bad[:6]
 
 
+def truthy_condition_checks():
+    """&, |, ~, ^ combine PREDICATES: a user condition may answer with any truthy / falsy value (a count, a remainder, a numpy integer);
+    the combination fires according to the Boolean table of the truth values"""
+    import itertools as it
+    import numpy as np
+    from neurodiffeq import callbacks as CB
+
+    class Returns(CB.ConditionCallback):
+        def __init__(self, value):
+            super().__init__()
+            self.value = value
+
+        def condition(self, solver):
+            return self.value
+
+    class S:
+        local_epoch = global_epoch = 1
+        _max_local_epoch = 3
+    bad = []
+    vals = [0, 1, 2, 3, np.int64(2), np.int64(0), True, False, 0.5, '', 'x', None, [0]]
+    for a, b in it.product(vals, repeat=2):
+        for opn, build, table in (('a ^ b', lambda x, y: x ^ y, lambda p, q: p != q), ('a & b', lambda x, y: x & y, lambda p, q: p and q),
+                                  ('a | b', lambda x, y: x | y, lambda p, q: p or q), ('~a', lambda x, y: ~x, lambda p, q: not p),
+                                  ('(a ^ b) ^ a', lambda x, y: (x ^ y) ^ Returns(a), lambda p, q: q)):
+            fired = []
+
+            class Act(CB.ActionCallback):
+                def __call__(self, solver):
+                    fired.append(1)
+            cb = build(Returns(a), Returns(b)).set_action_callback(Act())
+            try:
+                cb(S())
+            except Exception as e:
+                bad.append(dict(script=dict(family='conditions returning truthy / falsy non-bool values', expression=opn, a=repr(a), b=repr(b)),
+                                violated=[f'{type(e).__name__}: {e}']))
+                continue
+            want = bool(table(bool(a), bool(b)))
+            if bool(fired) != want:
+                bad.append(dict(script=dict(family='conditions returning truthy / falsy non-bool values', expression=opn, a=repr(a), b=repr(b)),
+                                violated=[f'action {"ran" if fired else "did not run"}; the Boolean table says it {"runs" if want else "does not run"}']))
+    return bad[:6]
+
+
 def frozen_parameter_checks():
     """set-once optimiser actions "leave the solver training every distinct parameter once per step": also parameters that are frozen
     (requires_grad=False) at the moment of the switch and unfrozen later - they must be registered with the new optimiser"""
@@ -1011,6 +1054,7 @@ def check(tier, seed):
     driver_s += flush()
     failing += frozen_parameter_checks()
     failing += eve_large_k_checks()
+    failing += truthy_condition_checks()
     # malformed stream
     mal_blocks, mal_real = [], []
     for name, line, ctor, exc in MALFORMED:
